@@ -51,7 +51,7 @@ Proof.
 Qed.
 
 Definition after_connect (l : lpc) : bool :=
-  match l with LWant | LSelect _ | LDrain | LPop | LSend _ | RWake => true | _ => false end.
+  match l with LWant | LSelect _ | LDrain | LGate | LPop | LSend _ | RFlagT | RWake => true | _ => false end.
 
 Definition pending (c : conf) : list pkt := in_send (loop c) ++ out_packet c.
 
@@ -92,11 +92,12 @@ Ltac fin_k4 K4 :=
 Lemma KInv_lstep c c' : KInv c -> lstep c = Some c' -> KInv c'.
 Proof.
   intros (K1 & K2 & K3 & K4) Hs. unfold lstep in Hs. unfold KInv, pending in *.
-  destruct (loop c) as [|wl| | |x| | | | |] eqn:El; cbn [after_connect in_send] in *.
+  destruct (loop c) as [|wl| | | |x| | | | | | |] eqn:El; cbn [after_connect in_send] in *.
   - (* LWant *) inversion Hs; subst; cbn. repeat split; auto.
   - (* LSelect *)
     destruct (0 <? pipe c)%nat; [|destruct wl; [|discriminate]]; inversion Hs; subst; cbn; repeat split; auto.
   - (* LDrain *) inversion Hs; subst; cbn. repeat split; auto.
+  - (* LGate *) inversion Hs; subst; cbn. destruct (cq c); cbn; repeat split; auto.
   - (* LPop *)
     destruct (out_packet c) as [|y q] eqn:Eq; inversion Hs; subst; cbn; repeat split; auto; fin_k4 K4.
   - (* LSend *)
@@ -116,6 +117,8 @@ Proof.
   - (* RDrain *)
     destruct (out_packet c) as [|y q] eqn:Eq; inversion Hs; subst; cbn;
       (split; [assumption|]; split; [assumption|]; split; [assumption|]; intros k' H H'; discriminate).
+  - (* RFlag *) inversion Hs; subst; cbn. split; [assumption|]. split; [assumption|]. split; [assumption|].
+    intros k' H H'; discriminate.
   - (* RSock *) inversion Hs; subst; cbn. split; [assumption|]. split; [|split].
     + intros k' p' Hin. specialize (K2 k' p' Hin). lia.
     + intros k' H. inversion H; subst. lia.
@@ -124,6 +127,8 @@ Proof.
     destruct (sock c) as [k|] eqn:Ek; [|discriminate]. inversion Hs; subst; cbn.
     split; [assumption|]. split; [assumption|]. split; [assumption|].
     intros k' Hk' _ _. inversion Hk'; subst. eexists. reflexivity.
+  - (* RFlagT *) inversion Hs; subst; cbn. split; [assumption|]. split; [assumption|]. split; [assumption|].
+    fin_k4 K4.
   - (* RWake *) inversion Hs; subst; cbn. split; [assumption|]. split; [assumption|]. split; [assumption|].
     fin_k4 K4.
 Qed.
@@ -157,7 +162,7 @@ Lemma SInv_step t c c' : SInv c -> tstep t c = Some c' -> SInv c'.
 Proof.
   intros HS Hs. apply tstep_cases in Hs as [[_ Hs]|[[_ Hs]|(i & p & _ & Hp & Hs)]].
   - unfold lstep in Hs. unfold SInv in *.
-    destruct (loop c) as [|wl| | |x| | | | |] eqn:El;
+    destruct (loop c) as [|wl| | | |x| | | | | | |] eqn:El;
       repeat match type of Hs with
              | context [if ?b then _ else _] => destruct b eqn:?
              | context [match ?x with _ => _ end] => destruct x eqn:?
@@ -176,7 +181,7 @@ Proof.
   assert (HS : SInv c).
   { apply run_inv; [intros t x x'; apply SInv_step|]. unfold SInv, init; cbn. intros _. eexists; reflexivity. }
   cbn [tstep] in Hn. unfold lstep in Hn.
-  destruct (loop c) as [|wl| | |x| | | | |] eqn:El; try discriminate.
+  destruct (loop c) as [|wl| | | |x| | | | | | |] eqn:El; try discriminate.
   - destruct (0 <? pipe c)%nat eqn:Ep; [discriminate|]. destruct wl; [discriminate|].
     apply Nat.ltb_ge in Ep. split; [reflexivity|lia].
   - destruct (out_packet c); discriminate.
@@ -199,10 +204,11 @@ Lemma DInv_lstep c c' : DInv c -> lstep c = Some c' -> DInv c'.
 Proof.
   intros D1 Hs. destruct (lstep_frame c c' Hs) as (Ep & _).
   unfold lstep in Hs. unfold DInv, flight in *. rewrite Ep.
-  destruct (loop c) as [|wl| | |x| | | | |] eqn:El; cbn [in_send] in *.
+  destruct (loop c) as [|wl| | | |x| | | | | | |] eqn:El; cbn [in_send] in *.
   - inversion Hs; subst; cbn. exact D1.
   - destruct (0 <? pipe c)%nat; [|destruct wl; [|discriminate]]; inversion Hs; subst; cbn; exact D1.
   - inversion Hs; subst; cbn. exact D1.
+  - inversion Hs; subst; cbn. destruct (cq c); cbn; exact D1.
   - destruct (out_packet c) as [|y q] eqn:Eq; inversion Hs; subst; cbn in D1 |- *; rewrite ?Eq; exact D1.
   - destruct (sock c) as [k|] eqn:Ek; inversion Hs; subst; cbn.
     + intros i p z Hp Hz. destruct (D1 i p z Hp Hz) as [H|H]; [left|right; assumption].
@@ -218,9 +224,11 @@ Proof.
       * left. apply in_or_app; right; exact H.
     + right. apply in_or_app; left; exact H.
   - inversion Hs; subst; cbn. exact D1.
+  - inversion Hs; subst; cbn. exact D1.
   - destruct (sock c) as [k|]; [|discriminate]. inversion Hs; subst; cbn.
     intros i p z Hp Hz. destruct (D1 i p z Hp Hz) as [H|H]; [left|right; assumption].
     cbn in H. apply in_app_or in H as [H|H]; apply in_or_app; [left; exact H | right; right; exact H].
+  - inversion Hs; subst; cbn. exact D1.
   - inversion Hs; subst; cbn. exact D1.
 Qed.
 
@@ -268,8 +276,8 @@ Qed.
 (* ------------------------------------------------------------------ the schedules that refuted the earlier code *)
 (* the interleavings of findings F-C07a, F-C07b, F-C07d, re-timed for the new step structure of reconnect():
    a publisher passes the `_sock` test and appends while the loop thread is inside reconnect() *)
-Definition old_a : list tid := repeat Loop 3 ++ repeat (Pub 0) 8 ++ repeat Loop 9.
-Definition old_bd : list tid := repeat (Pub 0) 7 ++ [Loop; Loop; Pub 0] ++ repeat Loop 12.
+Definition old_a : list tid := repeat Loop 4 ++ repeat (Pub 0) 8 ++ repeat Loop 11.
+Definition old_bd : list tid := repeat (Pub 0) 7 ++ [Loop; Loop; Pub 0] ++ repeat Loop 14.
 
 Example old_witnesses_now_hold :
   let a := sched_run old_a (init_reconnect 0 [1%nat]) in
@@ -281,7 +289,7 @@ Proof. vm_compute. repeat split; reflexivity. Qed.
 
 (* ... and a packet that IS in the queue when reconnect() drains it is marked, not written *)
 Example drained_packet_is_marked :
-  let s := repeat (Pub 0) 8 ++ repeat Loop 12 in
+  let s := repeat (Pub 0) 8 ++ repeat Loop 16 in
   let c := sched_run s (init_reconnect 0 [1%nat]) in
   marked c = [Publish 0 0 1] /\ wire c = [(1, Connect 1); (2, Connect 2)] /\ conserved c = true.
 Proof. vm_compute. repeat split; reflexivity. Qed.
